@@ -1,9 +1,9 @@
 package main
 
 import (
-	"os"
 	"fmt"
 	"go/types"
+	"os"
 	"regexp"
 	"sort"
 	"strconv"
@@ -632,6 +632,81 @@ func RuleK6(r *Report, c *Codec) {
 			sort.Strings(bs)
 			r.Check(len(bs) == 1 && bs[0] == "0", "K6", "codec."+cf.Dir+":"+k, pos, "base 0",
 				"value tag of a "+k+" field is parsed with base "+strings.Join(bs, ",")+": `value:0x16` is an error and `value:16` means 0x16")
+		}
+	}
+}
+
+// K19 a value: tag is honoured for every value of its constant
+func RuleK19(r *Report, c *Codec) {
+	r.Rule("K19", "a field with a value: tag is encoded as the tag's constant and decoded only from that constant, whatever the constant is: on encode the byte stored is the parsed constant on every path that has the tag, on decode every accepting path has compared the message byte with it (no value of the constant - 0, say - switches the tag off)", 4)
+	for _, cf := range []*CodecFacts{c.M, c.U} {
+		per := map[string][]string{}
+		for _, cp := range cf.Paths {
+			if cp.ValTag != 1 || cp.ErrNil != 1 || cp.Path.Outcome != "return" {
+				continue
+			}
+			if cp.Kind != "som" && cp.Kind != "msgtype" && cp.Kind != "uint8" {
+				continue
+			}
+			if cf.Dir == "unmarshal" && cp.Kind == "som" {
+				continue // the protocol id is checked by the entry points before the field walk
+			}
+			bad := ""
+			if cf.Dir == "marshal" {
+				n := 0
+				for _, e := range cp.Path.Events {
+					if e.Kind != "store" || len(e.Args) < 2 || e.Args[0].Op != "ptr" || e.Args[0].Cell == nil || e.Args[0].Cell.Name != cf.Buf {
+						continue
+					}
+					n++
+					v := e.Args[1].String()
+					if !strings.Contains(v, "strconv.ParseUint(") || strings.Contains(v, "(reflect.Value).Uint(") {
+						bad = "with the tag present the byte stored is " + cut(v, 60) + " under [" + cut(cp.Path.State.Describe(), 160) + "]"
+					}
+				}
+				if n == 0 && bad == "" {
+					bad = "with the tag present no byte is stored under [" + cut(cp.Path.State.Describe(), 160) + "]"
+				}
+			} else {
+				compared := false
+				for k := range cp.Path.State.Bools {
+					if strings.Contains(k, "strconv.ParseUint(") && strings.Contains(k, cf.Buf+"[") {
+						compared = true
+					}
+				}
+				for k := range cp.Path.State.Ints {
+					if strings.Contains(k, "strconv.ParseUint(") && strings.Contains(k, cf.Buf+"[") {
+						compared = true
+					}
+				}
+				// the relational part of the path condition: bytes[k] = <constant of the tag>
+				for _, cj := range strings.Split(cp.Path.State.Describe(), " ∧ ") {
+					if strings.HasPrefix(cj, cf.Buf+"[") && strings.Contains(cj, "strconv.ParseUint(") && strings.Contains(cj, "=") && !strings.Contains(cj, "≠") {
+						compared = true
+					}
+				}
+				if os.Getenv("UHLINT_DEBUG") == "K19" {
+					fmt.Fprintf(os.Stderr, "K19 %s %s compared=%v\n  state=%s\n", cf.Dir, cp.Kind, compared, cp.Path.State.Describe())
+				}
+				if !compared {
+					bad = "a message is accepted without comparing the byte with the tag's constant under [" + cut(cp.Path.State.Describe(), 160) + "]"
+				}
+			}
+			per[cp.Kind] = append(per[cp.Kind], bad)
+		}
+		kinds := []string{}
+		for k := range per {
+			kinds = append(kinds, k)
+		}
+		sort.Strings(kinds)
+		for _, k := range kinds {
+			bad := ""
+			for _, b := range per[k] {
+				if b != "" {
+					bad = b
+				}
+			}
+			r.Check(bad == "", "K19", "codec."+cf.Dir+":"+k, c.P.Pos(cf.Fn.Pos()), fmt.Sprintf("%d paths with the tag", len(per[k])), bad)
 		}
 	}
 }
